@@ -28,7 +28,7 @@ ALG = {'qubit': 'qubit', 'fermion': 'fermion', 'majorana': 'majorana', 'boson': 
        'quad': ['quad', [1, 1, 0, 1]]}
 
 TRUSTED = [
-    'C02: numpy.isclose(a, b) is modelled as |a-b| <= atol + rtol*|b| over exact numbers (defaults read from numpy at run time); numpy.amax/absolute as max of exact absolute values',
+    'C02: numpy.isclose(a, b) is modelled as |a-b| <= atol + rtol*|b| over exact numbers (defaults read from numpy at run time; MajoranaOperator.__eq__ calls it both ways for shared terms); numpy.amax/absolute as max of exact absolute values',
     'C02: CPython set iteration order is taken from the running interpreter (the harness passes the observed order to the Model); the theorems quantify over every order',
 ]
 ASSUMPTIONS = [
@@ -72,12 +72,35 @@ def frac_json(f):
     return [f.numerator, f.denominator]
 
 
-def safe_lt(lhs, rhs):
-    """decision `lhs < rhs` on exact non-negative squares; -> (bool, has_margin)"""
+def safe_lt(lhs, rhs, tie_exact=False):
+    """decision `lhs < rhs` on exact non-negative squares; -> (bool, has_margin).
+    An exact tie is only compared when the caller knows that the implementation's double
+    arithmetic is exact on this input (`tie_exact`)."""
     if rhs <= 0:
         return False, True
     r = Fraction(lhs) / Fraction(rhs)
+    if r == 1:
+        return False, tie_exact
     return r < 1, abs(r - 1) > MARGIN
+
+
+def is_real(c):
+    return not isinstance(c, complex) or c.imag == 0
+
+
+def small_dyadic(*xs):
+    """all values are real dyadic rationals with short mantissas: sums, differences and
+    products of two of them are exact in double arithmetic"""
+    for x in xs:
+        if not is_real(x):
+            return False
+        f = Fraction(x.real if isinstance(x, complex) else x)
+        d = f.denominator
+        if d & (d - 1):
+            return False
+        if abs(f.numerator).bit_length() > 24 or d.bit_length() > 60:
+            return False
+    return True
 
 
 # ---------------------------------------------------------------- term pools
@@ -128,7 +151,7 @@ def mk(C, terms):
     return op
 
 
-FACTORS = [0.25, 0.5, 0.9, 0.999, 1.001, 1.1, 2.0, 12.0, 1000.0]
+FACTORS = [0.25, 0.5, 0.9, 0.999, 1.0, 1.001, 1.1, 2.0, 12.0, 1000.0]
 
 
 def perturb(rng, c, tol):
@@ -137,6 +160,10 @@ def perturb(rng, c, tol):
     scale = max(1.0, abs(c))
     d = float(tol) * f * scale
     k = rng.random()
+    if f == 1.0 and is_real(c):
+        # exact tie |a - b| == tol * max(1, |a|, |b|): move towards zero (|b| <= |a|)
+        c = c.real if isinstance(c, complex) else c
+        return c - d if c > 0 else c + d
     if isinstance(c, complex) or k < 0.2:
         ph = rng.choice([1, -1, 1j, -1j, (3 + 4j) / 5])
         return c + d * ph
@@ -155,13 +182,16 @@ def isclose_exact(ta, tb, tol):
                 r, m = False, True
             else:
                 mx = max(Fraction(1), nsq(ta[t]), nsq(tb[t]))
-                r, m = safe_lt(nsq_diff(ta[t], tb[t]), tol * tol * mx)
+                x, y = ta[t], tb[t]
+                tie = is_real(x) and is_real(y) and (((x == 0 or y == 0) and mx == 1)
+                                                     or small_dyadic(x, y, float(tol)))
+                r, m = safe_lt(nsq_diff(x, y), tol * tol * mx, tie)
         else:
             c = ta[t] if t in ta else tb[t]
             if tol <= 0:
                 r, m = False, True
             else:
-                r, m = safe_lt(nsq(c), tol * tol)
+                r, m = safe_lt(nsq(c), tol * tol, is_real(c))
         val = val and r
         ok = ok and m
     return val, ok
@@ -181,7 +211,7 @@ def gen_pair(rng, cls, tol):
     t_eff = float(tol) if tol > 0 else 1e-8
     for i, t in enumerate(shared):
         c = rand_coeff(rng)
-        if rng.random() < 0.06:
+        if rng.random() < (0.25 if i in pert else 0.06):
             c = 0.0
         ta[t] = c
         if i in pert:
@@ -219,7 +249,7 @@ def stream_isclose(ctx):
                '(int/float/complex), 0-2 shared coefficients moved by a multiple (0.25 .. 1000) of the relevant '
                'threshold, stored zeros, one-sided terms near tol; tol default or explicit (incl. 0, negative, int); '
                'isclose both ways, ==, !=, shuffled insertion order, extra common terms; distinct = distinct cases')
-    n = budget(ctx.tier, 220, 6000)
+    n = budget(ctx.tier, 400, 6000)
     if ctx.drift:
         n = max(n, 1500)
     reqs, cases = [], []
@@ -322,7 +352,7 @@ def maj_eq_exact(ta, tb, atol, rtol):
         if t in ta and t in tb:
             r1, m1 = np_close_exact(ta[t], tb[t], atol, rtol)
             r2, m2 = np_close_exact(tb[t], ta[t], atol, rtol)
-            coded = coded and r1
+            coded = coded and (r1 or r2)      # HEAD tests numpy.isclose both ways
             stmt = stmt and (r1 or r2)
             ok = ok and m1 and m2
             window = window or (r1 != r2)
@@ -343,7 +373,7 @@ def stream_majorana_eq(ctx):
     s = Stream('majorana-eq', 'pairs of MajoranaOperators sharing 0-12 terms, one or two coefficients moved by a multiple '
                'of rtol*|c| (incl. the window between rtol*|self| and rtol*|other|) or of atol, stored zeros, one-sided '
                'terms near atol; == both ways, !=; distinct = distinct cases')
-    n = budget(ctx.tier, 500, 12000)
+    n = budget(ctx.tier, 1000, 12000)
     if ctx.drift:
         n = max(n, 3000)
     rng = rng_for(ctx.seed, 'c02-majeq')
@@ -589,7 +619,7 @@ def stream_identity(ctx):
                'differences that cancel, non-normal spellings of a scalar (a a^ + a^ a), random small operators; Spec: the '
                'denoted linear map is c*1 with c != 0 (spec.apply on the vacuum + spec.eq)')
     rng = rng_for(ctx.seed, 'c02-identity')
-    n = budget(ctx.tier, 60, 1500)
+    n = budget(ctx.tier, 100, 1500)
     built = []
     for cls in ('qubit', 'fermion', 'boson', 'quad'):
         C = cls_of(of, cls)
@@ -695,7 +725,7 @@ def tensor_exact(na, ta, nb, tb, tol):
         for i in range(m):
             u = x[i] if x is not None else 0
             v = y[i] if y is not None else 0
-            r, mg = safe_lt(nsq_diff(u, v), tol * tol)
+            r, mg = safe_lt(nsq_diff(u, v), tol * tol, is_real(u) and is_real(v) and (u == 0 or v == 0))
             val = val and r
             ok = ok and mg
     return val, ok
@@ -726,7 +756,7 @@ def stream_tensor_eq(ctx):
                'moved by a multiple of EQ_TOLERANCE, key dropped / added with zero or tiny tensor, different n_qubits; '
                '== both ways and !=; Model = max-abs as coded, Spec = every entry within tolerance')
     rng = rng_for(ctx.seed, 'c02-tensor')
-    n_cases = budget(ctx.tier, 400, 8000)
+    n_cases = budget(ctx.tier, 800, 8000)
     if ctx.drift:
         n_cases = max(n_cases, 2000)
     reqs, cases = [], []
@@ -848,7 +878,7 @@ def stream_hermitian(ctx):
                'anti-Hermitian parts; Spec: A = A^dagger as linear maps (involution from its definition, spec.eq); '
                'Model (qubit, quad): hermitian_conjugated + isclose as coded')
     rng = rng_for(ctx.seed, 'c02-herm')
-    n = budget(ctx.tier, 70, 1500)
+    n = budget(ctx.tier, 120, 1500)
     if ctx.drift:
         n = max(n, 400)
     rows = []
@@ -922,11 +952,6 @@ def classify(v):
     if v.get('stream') == 'is-identity' and w.startswith('is_identity differs'):
         if case.get('stored_zero') or not case.get('normal_form', True):
             return 'F02b'
-    if v.get('stream') == 'majorana-eq' and case.get('window') and (
-            w in ('majorana == is not symmetric', 'majorana == differs from the symmetric per-term statement',
-                  'majorana == differs from OFV.Spec.C02.MajEq')):
-        if w == 'majorana == is not symmetric' or (det.get('implementation') is False):
-            return 'F02c'
     if v.get('stream') == 'commutes-with' and w.startswith('commutes_with differs') and case.get('single') \
             and case.get('stored_zero') and det.get('implementation') is False and det.get('spec_commute') is True:
         return 'F02d'
@@ -944,10 +969,6 @@ def probe_known(ctx, k):
             a = of.QubitOperator('X0', 0.0) + of.QubitOperator(())
             return of.utils.operator_utils.is_identity(a) is False \
                 or of.utils.operator_utils.is_identity(of.QubitOperator((), 0.0)) is True
-        if k['id'] == 'F02c':
-            A = of.MajoranaOperator((0,), 1e6)
-            B = of.MajoranaOperator((0,), 1e6 + 10.0001)
-            return bool(A == B) != bool(B == A)
         if k['id'] == 'F02d':
             Z = of.MajoranaOperator((0,), 0.0)
             W = of.MajoranaOperator((0, 1))
